@@ -43,6 +43,7 @@ type wspec struct {
 }
 
 type foundV struct {
+	w, nw, k  int  // worker share (first episode, stride, plans per episode)
 	warmAlone bool // found by comparing a long-lived worker's result with a run-alone reference
 	run  int
 	e    int
@@ -145,7 +146,7 @@ func runWorker(a *aggT, s wspec, tier string, seed uint64, deadline int64, sites
 			a.pairs[p] = true
 		}
 		for _, v := range r.Violations {
-			a.found = append(a.found, foundV{e: r.E, race: s.race, v: v, plan: r.Plan})
+			a.found = append(a.found, foundV{e: r.E, run: r.FailRun, race: s.race, v: v, plan: r.Plan, w: s.offset + s.w, nw: s.nw, k: s.k})
 		}
 		a.mu.Unlock()
 		if len(r.BaseA) > 0 && len(r.Violations) == 0 && !s.race {
@@ -232,6 +233,23 @@ func replayFresh(rf *ReplayFile, sites string, timeout time.Duration) (vs []Viol
 			vs = append(vs, f.v)
 		}
 		return vs, false, "", nil
+	}
+	if rf.Mode == "worker" {
+		bin := os.Getenv("CONSIM_BIN_PLAIN")
+		if rf.Race {
+			bin = os.Getenv("CONSIM_BIN_RACE")
+		}
+		out, code, err := runProc(timeout, nil, bin, "worker", rf.Tier, strconv.FormatUint(rf.Seed, 10), strconv.Itoa(rf.WorkerW), strconv.Itoa(rf.WorkerNW), "0", sites, strconv.Itoa(rf.EpisodeIndex+1), strconv.Itoa(rf.WorkerK))
+		if err != nil || (code != 0 && code != 66) {
+			return nil, false, "", fmt.Errorf("worker re-run failed: code=%d err=%v", code, err)
+		}
+		for _, l := range strings.Split(out, "\n") {
+			var r epReport
+			if json.Unmarshal([]byte(l), &r) == nil && !r.Begin && !r.Done && r.E == rf.EpisodeIndex {
+				vs = append(vs, r.Violations...)
+			}
+		}
+		return vs, code == 66, "", nil
 	}
 	if rf.Cold {
 		fix, err := coldFixtures(rf.Episode.FixSeed)
@@ -710,6 +728,18 @@ func check(tier string) int {
 		for try := 0; try < tries && !ok; try++ {
 			ok = reproducesN(rf, sites, 1)
 		}
+		if !ok && !f.cold && !f.warmAlone && f.v.Oracle != "race-report" {
+			// state left behind by earlier runs or episodes: re-execute more history
+			for _, mode := range []string{"prefix", "worker"} {
+				rf.Mode, rf.WorkerW, rf.WorkerNW, rf.WorkerK = mode, f.w, f.nw, f.k
+				if ok = reproducesN(rf, sites, 1); ok {
+					break
+				}
+			}
+			if !ok {
+				rf.Mode = ""
+			}
+		}
 		min := rf
 		if !ok && f.v.Oracle == "race-report" && f.log != "" {
 			// A race report is never a false positive and its text (both stacks) is
@@ -721,7 +751,7 @@ func check(tier string) int {
 			fmt.Fprintf(os.Stderr, "consim: episode %d reported %s but a fresh-process replay did not reproduce it\n", f.e, f.v.String())
 			unconfirmed++
 			continue
-		} else if !rf.WarmAlone {
+		} else if !rf.WarmAlone && rf.Mode == "" {
 			min = minimiseReplay(rf, sites, 120*time.Second)
 		}
 		path := filepath.Join(envOr("VERIF_REPLAY_DIR", filepath.Join(root, "replays")), fmt.Sprintf("C15-%d-%d-%s.json", seed, f.e, f.v.Oracle))
